@@ -739,8 +739,8 @@ void slice1_variant()
       vf::count("observed/variant::compare/calls", n);
       vf::count("observed/variant::compare/differs-from-==", bad);
       if (bad)
-        vf::observation("variant::compare(x,y,==) differs from x==y on " + std::to_string(bad) + " of " +
-                        std::to_string(n) + " pairs (observed only)");
+        vf::violation("variant<bool,int,string>/variant::compare/equal_to", "mismatch",
+                      "variant::compare(x,y,==) differs from x==y on " + std::to_string(bad) + " of " + std::to_string(n) + " pairs");
     }
     // judged (documented: "equal if they hold the same type T and compare(left.get<T>(), right.get<T>()) holds"): with an
     // asymmetric function the wrapper must hand the values over in the order of its arguments, i.e. agree with < on
@@ -1440,7 +1440,7 @@ void slice0_type_iso()
     vf::count("observed/type_iso-enum/calls", 12);
     vf::count("observed/type_iso-enum/unexpected", bad);
     if (bad)
-      vf::observation("type_iso for enums: " + std::to_string(bad) + " of 12 conversions differ from static_cast (observed only)");
+      vf::violation("type_iso<enum>/conversions", "mismatch", "type_iso for enums: " + std::to_string(bad) + " of 12 conversions differ from static_cast (a type_iso wrapper exposes exactly the wrapped value)");
   }
 }
 
@@ -1508,7 +1508,7 @@ void slice0_reference_wrapper()
       if (&fcppt::reference_to_const(r).get() != &cells[k])
       {
         vf::count("observed/reference_to_const/other-object");
-        vf::observation("reference_to_const yields a reference to another object (observed only)");
+        vf::violation("reference-wrapper/reference_to_const/another-object", "mismatch", "reference_to_const yields a reference to another object");
       }
     }
   if (vf::begin_case("reference<derived>: operator->, reference_to_base (observed)"))
@@ -1524,7 +1524,7 @@ void slice0_reference_wrapper()
     if (&fcppt::reference_to_base<base_t>(r).get() != static_cast<base_t *>(&obj))
     {
       vf::count("observed/reference_to_base/other-object");
-      vf::observation("reference_to_base yields a reference to another object (observed only)");
+      vf::violation("reference-wrapper/reference_to_base/another-object", "mismatch", "reference_to_base yields a reference to another object");
     }
     vf::count("observed/reference_to_base/calls");
     vf::add_evals(3);
@@ -1663,14 +1663,14 @@ void slice0_unique_ptr_wrapper()
       if (asbase.get_pointer() != static_cast<base_t *>(raw))
       {
         vf::count("observed/unique_ptr_to_base/other-object");
-        vf::observation("unique_ptr_to_base does not keep the pointer (observed only)");
+        vf::violation("unique_ptr-wrapper/unique_ptr_to_base/another-object", "mismatch", "unique_ptr_to_base does not keep the pointer");
       }
       auto opt = fcppt::unique_ptr_from_std(std::make_unique<int>(k));
       if (!opt.has_value() || *opt.get_unsafe() != k)
-        vf::observation("unique_ptr_from_std does not keep the object (observed only)");
+        vf::violation("unique_ptr-wrapper/unique_ptr_from_std/another-object", "mismatch", "unique_ptr_from_std does not keep the object");
       auto cp = fcppt::unique_ptr_to_const(fcppt::make_unique_ptr<int>(k));
       if (*cp != k)
-        vf::observation("unique_ptr_to_const does not keep the object (observed only)");
+        vf::violation("unique_ptr-wrapper/unique_ptr_to_const/another-object", "mismatch", "unique_ptr_to_const does not keep the object");
     }
   }
 }
@@ -1748,7 +1748,7 @@ void slice0_shared_ptr_wrapper()
       auto l = w.lock();
       vf::count("observed/weak_ptr-lock/calls");
       if (!l.has_value() || l.get_unsafe().get_pointer() != raw)
-        vf::observation("weak_ptr::lock does not give back the shared object (observed only)");
+        vf::violation("shared_ptr-wrapper/weak_ptr::lock/another-object", "mismatch", "weak_ptr::lock does not give back the shared object");
     }
   }
 }
